@@ -1,9 +1,61 @@
-(* Properties_C08.v -- theorems of property C08 (statements only; proofs in JsonProofs*.v). *)
+(* Properties_C08.v -- C08: Stringify then Parse returns the same tree, and the text is valid JSON.
+   Statements only; proofs in JsonProofsWrite.v (strings) and JsonProofsRoundtrip.v (structure).
+   [vt] is a Value tree as the writer sees it (Undefined members, pointer members), [stringify]
+   the model of Value::Stringify (after D16), [normalize] the tree the text denotes (Undefined
+   members dropped, pointers followed, a non-negative signed integer reads back as unsigned).
+   [twf t]: integers in range, keys of the live members of an object pairwise different (an
+   invariant of HArray), no pointer to an Undefined value, every real carries a text that the
+   scanner takes as a real numeral ([real_numeral]: the number round trip is C10/C11's subject). *)
 From Coq Require Import NArith ZArith List Bool.
-From Qv Require Import gen.Tables_json JsonModel JsonProofsBase.
+From Qv Require Import gen.Tables_json JsonModel JsonSpec JsonProofsBase JsonProofsStr JsonProofsNum JsonProofsParse
+  JsonProofsComplete JsonProofsDoc JsonProofsInt JsonProofsWrite JsonProofsRoundtrip.
 Import ListNotations.
 Local Open Scope N_scope.
 
-Theorem c08_tables_ok : jc_same_in_all_widths = true /\ jc_quote = 34 /\ jc_bslash = 92.
-Proof. repeat split; apply tables_json_ok. Qed.
-Print Assumptions c08_tables_ok.
+(* the round trip, for every width and every well-formed tree with a container at the top *)
+Theorem c08_roundtrip : forall w t, twf t -> tcontainer t = true -> parse w (stringify t) = JOk (normalize t).
+Proof. exact stringify_roundtrip. Qed.
+Print Assumptions c08_roundtrip.
+
+(* strings: what Escape writes between two quotes is read back unit for unit -- every code unit,
+   including NUL, controls, quote, backslash, lone surrogates, at every width *)
+Theorem c08_str_roundtrip : forall w s rest,
+  pstring w (escape_json s ++ jc_quote :: rest) [] = JOk (Some (s, rest), []).
+Proof. exact escape_roundtrip. Qed.
+Print Assumptions c08_str_roundtrip.
+
+(* the escaped text is a string of RFC 8259 (nothing below 0x20, no bare quote or backslash) *)
+Theorem c08_str_rfc_valid : forall s rest, rfc_string (escape_json s ++ 34 :: rest) = Some rest.
+Proof. exact escape_json_rfc. Qed.
+Print Assumptions c08_str_rfc_valid.
+
+(* the writer appends exactly the text [vtext v] to the stream, whatever the stream holds ... *)
+Theorem c08_writer_appends : forall v st, str_value v st = st ++ vtext v.
+Proof. intros v st. apply (str_value_text (S (tsize v))). apply Nat.lt_succ_diag_r. Qed.
+Print Assumptions c08_writer_appends.
+
+(* ... and the last-comma patch is sound: a container's text is open bracket, the live members
+   joined by single commas, close bracket -- the overwritten unit is a comma this container wrote *)
+Theorem c08_comma_patch_sound_array : forall xs, vtext (VArr xs) = jc_ssquare :: jt (map vtext (live xs)) ++ [jc_esquare].
+Proof. exact arr_text. Qed.
+Print Assumptions c08_comma_patch_sound_array.
+Theorem c08_comma_patch_sound_object : forall ms, vtext (VObj ms) = jc_scurly :: jt (map member_text1 (livem ms)) ++ [jc_ecurly].
+Proof. exact obj_text. Qed.
+Print Assumptions c08_comma_patch_sound_object.
+
+(* integers are printed as their decimal numeral and read back exactly *)
+Theorem c08_int_roundtrip : forall w z rest, (- 9223372036854775808 <= z < 9223372036854775808)%Z -> num_follow rest = true ->
+  Val w (dec_z z ++ rest) (if (0 <=? z)%Z then JNat (Z.to_N z) else JInt z) rest.
+Proof. exact val_int. Qed.
+Print Assumptions c08_int_roundtrip.
+
+(* non-vacuity: a tree with removed members, a pointer, controls, boundary integers *)
+Definition c08_ex : vt :=
+  VObj [([1; 34; 92], VArr [VUndef; VNat 18446744073709551615; VInt (-9223372036854775808); VUndef]);
+        ([], VUndef); ([0], VPtr (VStr [0; 31; 127; 8; 47])); ([97], VObj [([98], VUndef)]); ([98], VInt 7)].
+Example c08_example : parse 0 (stringify c08_ex) = JOk (normalize c08_ex) /\ rfc_ok (stringify c08_ex) = true.
+Proof. split; vm_compute; reflexivity. Qed.
+
+(* NOT proved (correspondence only): the fixed point stringify . parse . stringify and the
+   RFC validity of the whole text (proved for strings above; for whole texts the extracted
+   recogniser rfc_ok is run on every Stringify output of the check); reals (C10/C11). *)
